@@ -7,6 +7,7 @@ package internal
 
 import (
 	"fmt"
+	"math/rand"
 	"path/filepath"
 	"testing"
 
@@ -119,6 +120,22 @@ func vTlfuRun(tr *vTrace, id string, cap int, n int, steps int, salt int64) {
 		v.evicted = v.evicted[:0]
 	}
 	for i := 0; i < steps; i++ {
+		if vTlfuStep(tr, v, rnd, cap, n, emit) {
+			return // the policy panicked: its state is not to be trusted any further
+		}
+	}
+}
+
+// vTlfuStep performs one white-box step; a panic inside the policy is logged (the eviction step did not
+// complete) and reported as true.
+func vTlfuStep(tr *vTrace, v *vTlfu, rnd *rand.Rand, cap int, n int, emit func(op string, e int, a int64)) (panicked bool) {
+	defer func() {
+		if r := recover(); r != nil {
+			tr.Emit(vRec{"ev": "panic", "what": fmt.Sprint(r)})
+			panicked = true
+		}
+	}()
+	{
 		t := v.t
 		// no implicit climbing: the sample counters are driven explicitly by the resize step
 		t.hitsInSample, t.missesInSample = 0, 0
@@ -177,6 +194,7 @@ func vTlfuRun(tr *vTrace, id string, cap int, n int, steps int, salt int64) {
 			emit("resize", 0, a)
 		}
 	}
+	return false
 }
 
 func TestVerif_C07Tlfu(t *testing.T) {
